@@ -118,6 +118,9 @@ func (fr *Frame) doCall(instr ssa.Instruction, c *ssa.CallCommon, fnv Value, arg
 		name := shortFuncName(callee)
 		if inRepo(callee) {
 			ct := x.W.ContractFor(callee)
+			if ct == nil && x.W.NoInline[name] && name != x.root {
+				return fr.unknownCall(c, callee, allArgs, res, pc, st, pos)
+			}
 			if ct != nil && !ct.Inline && !(x.mode.inlineAll()) {
 				return fr.applyContract(ct, callee, callee.Signature, paramNames(callee), allArgs, res, pc, st, pos)
 			}
@@ -138,11 +141,12 @@ func (fr *Frame) doCall(instr ssa.Instruction, c *ssa.CallCommon, fnv Value, arg
 	}
 	// unresolved: interface method or function value
 	if c.IsInvoke() {
-		key := "(" + types.TypeString(c.Value.Type(), nil) + ")." + c.Method.Name()
+		recvT := types.Unalias(c.Value.Type())
+		key := "(" + types.TypeString(recvT, nil) + ")." + c.Method.Name()
 		if ct, ok := x.W.Specs.Contracts[key]; ok {
 			return fr.applyContract(ct, nil, sig, ct.Params, allArgs, res, pc, st, pos)
 		}
-		sk := "(" + shortTypeKey(c.Value.Type()) + ")." + c.Method.Name()
+		sk := "(" + shortTypeKey(recvT) + ")." + c.Method.Name()
 		if ct, ok := x.W.Specs.Contracts[sk]; ok {
 			return fr.applyContract(ct, nil, sig, ct.Params, allArgs, res, pc, st, pos)
 		}
@@ -465,11 +469,18 @@ func (fr *Frame) applyContract(ct *Contract, callee *ssa.Function, sig *types.Si
 			fr.externDefaultHavoc(args, st)
 		}
 	}
+	for _, pm := range ct.Permutes {
+		for i, n := range names {
+			if n == pm {
+				fr.permuteSlice(args[i], pc, st)
+			}
+		}
+	}
 	// callbacks declared by "calls <param>"
 	for _, cb := range ct.Calls {
 		for i, n := range names {
-			if n == cb {
-				fr.runCallback(args[i], pc, st, pos)
+			if n == cb.Names[0] {
+				fr.runCallbackWith(args[i], pc, st, pos, cb.Expr, env)
 			}
 		}
 	}
@@ -793,10 +804,22 @@ func (fr *Frame) unknownCall(c *ssa.CallCommon, callee *ssa.Function, args []Val
 	if callee != nil {
 		name = externName(callee)
 	} else if c.IsInvoke() {
-		name = "(" + types.TypeString(c.Value.Type(), nil) + ")." + c.Method.Name()
+		name = "(" + types.TypeString(types.Unalias(c.Value.Type()), nil) + ")." + c.Method.Name()
 	}
 	// effects
 	if x.mode.Effects {
+		if callee != nil && inRepo(callee) {
+			// a root analysed separately: its default allows are what it may do
+			env := x.envForFunc(callee, callee.Signature, paramNames(callee), args, st, nil)
+			dummy := &Contract{Func: shortFuncName(callee)}
+			for _, d := range x.W.DefaultsFor(callee) {
+				for _, cl := range d.Clauses {
+					if cl.Kind == "allows" && x.active(cl) {
+						fr.checkEffect(dummy, cl, env, pc, pos)
+					}
+				}
+			}
+		}
 		if callee != nil && !inRepo(callee) {
 			if eff := x.defaultExternEffect(callee); eff != "" {
 				x.emitEffect(effectInst{name: eff, cond: B.True(), src: name}, pc, pos)
@@ -876,6 +899,12 @@ func (x *X) pureExternal(fn *ssa.Function) bool { return true }
 // runCallback analyses one abstract invocation of a closure that an
 // external function may call any number of times.
 func (fr *Frame) runCallback(fv Value, pc *Term, st *State, pos string) {
+	fr.runCallbackWith(fv, pc, st, pos, nil, nil)
+}
+
+// runCallbackWith: cond (optional) constrains the callback's arguments,
+// named arg0, arg1, ... and evaluated in the callee contract's environment.
+func (fr *Frame) runCallbackWith(fv Value, pc *Term, st *State, pos string, cond *SNode, cenv *Env) {
 	x := fr.x
 	if len(fv.L) != 1 {
 		return
@@ -912,6 +941,21 @@ func (fr *Frame) runCallback(fv Value, pc *Term, st *State, pos string) {
 	var params []Value
 	for _, p := range cl.Fn.Params {
 		params = append(params, x.freshValue(p.Type(), "cb_"+p.Name()))
+	}
+	if cond != nil && cenv != nil {
+		ne := *cenv
+		ne.vars = map[string]SV{}
+		for k, v := range cenv.vars {
+			ne.vars[k] = v
+		}
+		for i, p := range params {
+			ne.vars[fmt.Sprintf("arg%d", i)] = svValue(p)
+		}
+		var t *Term
+		if err := safeEval(func() { t = ne.Bool(cond) }); err != nil {
+			panic(stopExec{"calls ... with: " + err.Error()})
+		}
+		x.assume(pc, t, "callback argument constraint")
 	}
 	nf := x.newFrame(cl.Fn, params, cl.Bind, fr.depth+1)
 	nf.inDefer = fr.inDefer
@@ -1196,7 +1240,7 @@ func (w *World) computeModSets() {
 				case len(n) > 2 && n[1] == ':':
 					ms.names[n] = true
 				case strings.HasPrefix(n, "contents("):
-					ms.names["E:"] = true
+					ms.names[contentsHeapName(n, fn)] = true
 				default:
 					// p.f rooted at a parameter: resolve the parameter's type
 					parts := strings.SplitN(n, ".", 2)
@@ -1625,4 +1669,60 @@ func (fr *Frame) freeVarCell(fv *ssa.FreeVar, out *modSet) {
 			}
 		}
 	}
+}
+
+// permuteSlice models an in-place permutation of a slice (sort.Slice): every
+// new element equals some old element of the same slice.
+func (fr *Frame) permuteSlice(a Value, pc *Term, st *State) {
+	x := fr.x
+	B := x.B
+	sv := a
+	if _, ok := a.T.Underlying().(*types.Interface); ok {
+		bv, found := x.boxed[a.L[1]]
+		if !found {
+			x.warn("permutes: slice hidden behind an interface; whole E: heap of unknown type left untouched")
+			return
+		}
+		sv = bv
+	}
+	sl, ok := sv.T.Underlying().(*types.Slice)
+	if !ok {
+		return
+	}
+	n := x.nextBound()
+	perm := B.DeclFunc(fmt.Sprintf("perm$%d", n), []*Sort{IntSort}, IntSort)
+	j := B.BoundVar(fmt.Sprintf("pj$%d", n), IntSort)
+	base, off, ln := sv.L[0], sv.L[1], sv.L[2]
+	inRange := B.And(B.Le(B.Int(0), j), B.Lt(j, ln))
+	pj := B.App(perm, j)
+	x.assume(pc, B.Forall([]*Term{j}, B.Implies(inRange, B.And(B.Le(B.Int(0), pj), B.Lt(pj, ln)))), "permutation stays in range")
+	for _, lf := range LayoutOf(sl.Elem()).Leaves {
+		if lf.Role == "array" || lf.Role == "opaque" {
+			continue
+		}
+		hn := "E:" + heapTypeName(sl.Elem()) + lf.Path
+		srt := ArraySort(IntSort, ArraySort(IntSort, lf.Sort))
+		h := x.heapRead(st, hn, srt)
+		oldArr := B.Select(h, base)
+		newArr := B.Fresh("permarr", ArraySort(IntSort, lf.Sort))
+		x.assume(pc, B.Forall([]*Term{j}, B.Implies(inRange,
+			B.Eq(B.Select(newArr, B.Add(off, j)), B.Select(oldArr, B.Add(off, pj))))), "permutation of elements")
+		x.heapSet(st, hn, B.Store(h, base, newArr))
+	}
+}
+
+// contentsHeapName maps "contents(p)" to the E: heap of p's element type
+// when p is a slice-typed parameter, else to the whole E: space.
+func contentsHeapName(n string, fn *ssa.Function) string {
+	arg := strings.TrimSuffix(strings.TrimPrefix(n, "contents("), ")")
+	if fn != nil {
+		for _, p := range fn.Params {
+			if p.Name() == arg {
+				if sl, ok := p.Type().Underlying().(*types.Slice); ok {
+					return "E:" + heapTypeName(sl.Elem())
+				}
+			}
+		}
+	}
+	return "E:"
 }
